@@ -303,17 +303,23 @@ def _store_array(
         # treat a region as an offset within the target store
         shape = target.shape
         chunks = target.chunks
-        for i, (sl, cs) in enumerate(zip(region, chunks)):
-            if (sl.start is not None and sl.start % cs != 0) or (
-                sl.stop is not None and sl.stop % cs != 0 and sl.stop != shape[i]
-            ):
+        if len(region) != len(shape) or not all(isinstance(sl, slice) for sl in region):
+            raise ValueError(
+                f"Region {region} must be a tuple of {len(shape)} slices, one for each dimension of the target"
+            )
+        if any(sl.step not in (None, 1) for sl in region):
+            raise ValueError(f"Region {region} must not have steps other than 1")
+        # normalize the region so that bounds are non-negative integers within the target
+        normalized_region = tuple(
+            slice(*sl.indices(n)[:2]) for sl, n in zip(region, shape)
+        )
+        for i, (sl, cs) in enumerate(zip(normalized_region, chunks)):
+            if sl.start % cs != 0 or (sl.stop % cs != 0 and sl.stop != shape[i]):
                 raise ValueError(
                     f"Region {region} does not align with target chunks {chunks}"
                 )
-        block_offsets = [
-            (0 if sl.start is None else sl.start // cs)
-            for sl, cs in zip(region, chunks)
-        ]
+        region = normalized_region
+        block_offsets = [sl.start // cs for sl, cs in zip(region, chunks)]
 
         def back_key_function(out_key: ChunkKey) -> FunctionArgs[ChunkKey]:
             out_coords = out_key.coords
@@ -328,6 +334,13 @@ def _store_array(
             raise ValueError(
                 f"Source array shape {source.shape} does not match region shape {indexer.shape}"
             )
+        # each task writes one target chunk from the corresponding source chunk,
+        # so the source must be chunked like the target
+        region_chunksize = to_chunksize(
+            normalize_chunks(chunks, source.shape, dtype=source.dtype)
+        )
+        if array_size(source.shape) > 0 and source.chunksize != region_chunksize:
+            source = source.rechunk(region_chunksize)
 
         # use this wrapper to avoid generator pickle error
         class OutputBlocksIterable(Iterable[list[int]]):
